@@ -41,6 +41,25 @@ var c06Data = []datum{
 	{src: `moves(a12)`, steps: []string{"a12"}},
 	{src: `moves(a * 3)`, steps: []string{"a", "a", "a"}},
 	{src: `moves(a b * 2)`, steps: []string{"a", "b", "b"}},
+	// the same literal formatted under parameter sets that give different results (and two that give the same)
+	fmtDatum(`format("aaa bbb ccc ddd eee", "TEST", 70)`, "aaa bbb ccc ddd eee", 70, 0, 2),
+	fmtDatum(`format("aaa bbb ccc ddd eee", "TEST", 70, cursorOverlapWidth=10)`, "aaa bbb ccc ddd eee", 70, 10, 2),
+	fmtDatum(`format("aaa bbb ccc ddd eee", "TEST", 70, numLines=1)`, "aaa bbb ccc ddd eee", 70, 0, 1),
+	fmtDatum(`format("aaa bbb ccc ddd eee", "TEST", 30)`, "aaa bbb ccc ddd eee", 30, 0, 2),
+	fmtDatum(`format("aaa bbb ccc ddd eee", 70, "TEST", numLines=1, cursorOverlapWidth=10)`, "aaa bbb ccc ddd eee", 70, 10, 1),
+	fmtDatum(`format("aaa bbb ccc ddd eee", "TEST", 75)`, "aaa bbb ccc ddd eee", 75, 0, 2),
+}
+
+// fmtDatum: a format() argument on the built-in TEST font (every glyph 10 pixels wide). The expected
+// content is what a fresh FontConfig makes of the literal under exactly these parameters (C07 decides
+// whether that formatting is right; C06 decides that the label holds the result for these parameters).
+func fmtDatum(src, text string, maxLen, overlap, numLines int) datum {
+	fc := parser.FontConfig{}
+	out, err := fc.FormatText(text, maxLen, overlap, "TEST", numLines)
+	if err != nil {
+		panic(err)
+	}
+	return datum{src: src, isText: true, content: strings.ReplaceAll(out, "\n", "") + "$"} // FormatText puts a source newline after each break code; the emitter starts a new directive there
 }
 
 const c06Contexts = 13
@@ -148,7 +167,7 @@ func runC06(tier string) int {
 	r.Assume("names are <owner>_Text_<n> / <owner>_Movement_<n>, n counting the owner's new contents in source order of first appearance; content of a moves() is its written, expanded step list",
 		"identical content = identical text after terminator and format() processing and identical string type")
 	return r.Finish(r.Get("evaluations"), r.Get("nontrivial"),
-		"every file with N inline arguments distributed over 3 owners (two scripts and an inline map script, <= 3 each) x every assignment of 17 datum kinds (plain / already-terminated / formatted / other text, ascii, braille and custom types incl. typed texts whose final literal equals a plain one, 9 moves() spellings incl. lists that differ only in the length of their last run or whose run-length spelling collides with another step name) x context rotations over 13 contexts (statement, if, while, switch case, AutoVar condition, selected poryswitch case, '_' case after an unselected one, do-while condition, AutoVar leaf in a parenthesised / negated group followed by an operator, elif condition, AutoVar switch operand, second of two inline data in one command) x {no user name, a user text, a user movement named like a generated label}; non-trivial = some content is shared between two arguments")
+		"every file with N inline arguments distributed over 3 owners (two scripts and an inline map script, <= 3 each) x every assignment of 23 datum kinds (plain / already-terminated / formatted / other text, ascii, braille and custom types incl. typed texts whose final literal equals a plain one, one literal under six format() parameter sets of which two give the same result, 9 moves() spellings incl. lists that differ only in the length of their last run or whose run-length spelling collides with another step name) x context rotations over 13 contexts (statement, if, while, switch case, AutoVar condition, selected poryswitch case, '_' case after an unselected one, do-while condition, AutoVar leaf in a parenthesised / negated group followed by an operator, elif condition, AutoVar switch operand, second of two inline data in one command) x {no user name, a user text, a user movement named like a generated label}; non-trivial = some content is shared between two arguments")
 }
 
 func c06Eval(r *harness.Run, data []datum, dist []int, rot, clash int) {
@@ -323,7 +342,12 @@ func c06Eval(r *harness.Run, data []datum, dist []int, rot, clash int) {
 			if d.typ != "" {
 				dir = d.typ
 			}
-			if !ok || len(got) != 1 || got[0][0] != dir || got[0][1] != d.content {
+			all, sameDir := "", true
+			for _, g := range got {
+				all += g[1]
+				sameDir = sameDir && g[0] == dir
+			}
+			if !ok || len(got) == 0 || !sameDir || all != d.content {
 				fail("C06:text-content", fmt.Sprintf("label %s holds %v, want .%s %q", l, got, dir, d.content))
 			}
 		} else {
